@@ -50,14 +50,23 @@ fn main() {
         (v["sub"].as_str().unwrap_or("").to_string(), v["case"].clone())
     });
     if let Some(t) = triage { std::process::exit(core::triage(&id, &root, &t)); }
-    if let Ok(t) = std::env::var("KVERIF_TRACE_FILE") { if replay.is_none() { core::trace_enable(&t); } }
+    // crash trace + hang monitor (always on for real runs; the file lives in scratch space unless the check script names it)
+    let trace_file = std::env::var("KVERIF_TRACE_FILE").ok().filter(|s| !s.is_empty()).unwrap_or_else(|| cli::scratch_root().join(format!("kverif-trace-{}.bin", std::process::id())).to_string_lossy().into_owned());
+    if replay.is_none() { core::trace_enable(&trace_file); core::start_hang_monitor(id.clone(), root.clone(), std::env::var("VERIF_HANG_S").ok().and_then(|s| s.parse().ok()).unwrap_or(if tier == Tier::Quick { 120 } else { 600 })); }
     core::install_panic_hook();
     if let Err(e) = kspec::selftest() { eprintln!("{}", e); std::process::exit(2); }
     // watchdog: a hang is inconclusive (exit 2), never a pass and never a violation
     let limit = std::env::var("VERIF_WATCHDOG_S").ok().and_then(|s| s.parse().ok()).unwrap_or(if tier == Tier::Quick { 1500u64 } else { 6 * 3600 });
     std::thread::spawn(move || { std::thread::sleep(std::time::Duration::from_secs(limit)); eprintln!("kverif: watchdog after {} s: inconclusive", limit); std::process::exit(2); });
+    if let Some(p) = replay.clone() {
+        // a replayed case that does not return: violation for C09 ("never a hang"), inconclusive otherwise
+        let (id2, lim) = (id.clone(), std::env::var("VERIF_HANG_S").ok().and_then(|s| s.parse().ok()).unwrap_or(120u64));
+        std::thread::spawn(move || { std::thread::sleep(std::time::Duration::from_secs(lim)); println!("replay: the case did not return within {} s", lim); if id2 == "C09" { println!("VIOLATION property={} replay={}", id2, p); std::process::exit(1); } std::process::exit(2); });
+    }
     let ctx = Ctx::new(&id, tier, seed, root, replay_case);
     ctx.assume("kspec (independent executable specification) passed its RFC self-test at start-up");
     if !props::run(&ctx) { eprintln!("unknown property {}", id); std::process::exit(2); }
-    std::process::exit(ctx.finish());
+    let rc = ctx.finish();
+    if std::env::var("KVERIF_TRACE_FILE").map(|s| s.is_empty()).unwrap_or(true) { let _ = std::fs::remove_file(&trace_file); }
+    std::process::exit(rc);
 }
